@@ -533,6 +533,8 @@ rmut("rf-lst-r8-2+colour-twice", "lst-r8-2", "C16", "C16.R2", (LS, "    for part
 rmut("rf-lst-r8-2+marker-dropped", "lst-r8-2", "C16", "C16.R", (LS, "[marker_end_color, MARKER_END, reset_color],", "[marker_end_color, reset_color, reset_color],"))
 rmut("rf-ep-r8-2+value-to-name", "ep-r8-2", "C09", "C09.R1", (EP, "                                    let (_, value) = pairs.last_mut().expect(\"a name precedes '='\");\n                                    *value = Some(&target[start..pos]);\n                                    state = State::NameBegin\n                                }\n                            }\n                            State::ValueWithSingleQuote", "                                    let (value, _) = pairs.last_mut().expect(\"a name precedes '='\");\n                                    *value = &target[start..pos];\n                                    state = State::NameBegin\n                                }\n                            }\n                            State::ValueWithSingleQuote"))
 rmut("rf-ep-r8-2+name-skipped", "ep-r8-2", "C09", "C09.R", (EP, "            let (name, _) = words.next()?;\n", "            words.next()?;\n            let (name, _) = words.next()?;\n"))
+rmut("rf-par-r9-3+stack-not-popped", "par-r9-3", "C10", "C10.R10", (PA, "                    let popped = open_names.pop();\n                    debug_assert_eq!(popped, Some(el.name));\n", ""))
+rmut("rf-par-r9-3+wrong-name-pushed", "par-r9-3", "C10", "C10.R", (PA, "                    open_names.push(el.name);", "                    open_names.push(\"\");"))
 rmut("rf-rem-r10-1+window-takes-end-index", "rem-r10-1", "C12", "C12.R4", (RM, "                            .take(spliced)\n", "                            .take(end_cursor)\n"))
 rmut("rf-fmt-r10-2+returns-line-break-itself", "fmt-r10-2", "C13", "C13.R6", (IR, "Some(b'\\n') => return (cursor + 1, byte_pos),", "Some(b'\\n') => return (cursor, byte_pos),"))
 rmut("rf-fmt-r10-2+any-byte-found", "fmt-r10-2", "C02", "C02.R", (IR, "                _ => return (byte_pos, byte_pos),\n", "                _ => return (cursor + 1, byte_pos),\n"))
